@@ -8,8 +8,9 @@
      watchers collected meanwhile (nothing, for the scheduled retry) and the same full/partial flag.
    - pkg/controller/services/services.go reloadHAProxy: the reload queue calls
      instance.Reload(); on error it adds itself again (AddAfter) - files are not touched.
-   - a restart creates a new instance (nothing committed, nothing remembered) over whatever
-     the configuration directory holds, and its first reconciliation is a full sync. *)
+   - a restart creates a new instance (nothing committed, nothing remembered, shardsClean
+     false) over whatever the configuration directory holds, and its first reconciliation is
+     a full sync. *)
 From Coq Require Import NArith List Bool.
 From HI Require Import Model.ConfigSM.
 Import ListNotations.
@@ -26,7 +27,7 @@ Definition run_f (e : env) (s : inst) (h : list (list op * list fpoint)) : inst 
 (* the reload queue: one firing of services.reloadHAProxy whose Reload() succeeds or not *)
 Definition reload_once (ok : bool) (s : inst) : inst :=
   if i_pending s then
-    if ok then {| i_cfg := i_cfg s; i_disk := i_disk s; i_failed := i_failed s;
+    if ok then {| i_cfg := i_cfg s; i_disk := i_disk s; i_failed := i_failed s; i_clean := i_clean s;
                   i_running := Some (i_disk s); i_pending := false |}
     else s   (* added again: still pending *)
   else s.
@@ -37,5 +38,5 @@ Definition queue_reloads (nfail : N) (s : inst) : inst :=
 
 (* restart of the controller over the same directory; an external haproxy keeps running *)
 Definition restart (s : inst) : inst :=
-  {| i_cfg := config_empty; i_disk := i_disk s; i_failed := false;
+  {| i_cfg := config_empty; i_disk := i_disk s; i_failed := false; i_clean := false;
      i_running := i_running s; i_pending := false |}.
